@@ -143,17 +143,18 @@ class MDOParallelChain(ProcessDiscipline):
         jacobians = self.parallel_lin.execute(self._get_input_data_copies())
         self.jac = {}
         # Update jacobians according to input order of priority
-        for discipline_jacobian in jacobians:
+        for discipline, discipline_jacobian in zip(self.disciplines, jacobians):
             if discipline_jacobian is None:
                 # The linearization of the discipline failed.
                 continue
 
+            # As in _execute, the last discipline computing an output prevails:
+            # the blocks of a previous one must not be kept, even partially.
+            for output_name in discipline.io.output_grammar:
+                self.jac.pop(output_name, None)
+
             for output_name, output_jacobian in discipline_jacobian.items():
-                chain_jacobian = self.jac.get(output_name)
-                if chain_jacobian is None:
-                    chain_jacobian = {}
-                    self.jac[output_name] = chain_jacobian
-                chain_jacobian.update(output_jacobian)
+                self.jac[output_name] = dict(output_jacobian)
 
         self._init_jacobian(
             input_names,
